@@ -357,10 +357,20 @@ impl VariableAssignment {
         if let Some(last_value) = self.values.last_mut() {
             return last_value.mutate_last_token();
         }
-        self.variables
+        let last_variable = self
+            .variables
             .last_mut()
-            .expect("local assign must have at least one variable")
-            .mutate_or_insert_token()
+            .expect("local assign must have at least one variable");
+
+        // a type annotation comes after the name of the variable
+        if last_variable.get_type().is_some() {
+            return last_variable
+                .mutate_type()
+                .expect("variable should have a type")
+                .mutate_last_token();
+        }
+
+        last_variable.mutate_or_insert_token()
     }
 
     super::impl_token_fns!(iter = [variables, tokens]);
